@@ -22,9 +22,58 @@ def make_plan(seed: int, tier: str, opts: dict) -> dict:
         if ep["api"] == "gym" and mode < 0.35:
             ep["pass_own_result"] = True
         eps.append(ep)
+    if r.random() < opts.get("free_run_p", 0.12):
+        # "free-running sender" family: a source that does not depend on the supervisor feeds it over a non-blocking connection; throttled far
+        # faster than real time while the user is slow, the sender gets hundreds of outputs (and announced timestamps) ahead of the receiver.
+        # Queues that hold announced timestamps / messages must not lose anything however long they grow.
+        spec, eps = _free_run(r)
     fresh = dict(driver.gen_episode(r, 0, api="gym", open_loop=spec["open_loop"], nsteps=nsteps, endings=("stop",), override_p=0.0), until_active=False) if r.random() < opts.get("fresh_p", 0.3) else None
     hot = r.choice([0.0, 0.0, 0.15, 0.4])  # pre-emption concentrated on lines touching shared lifecycle/queue fields
-    return dict(hot_rate=hot, fresh=fresh, spec=spec, seed=seed, episodes=eps, clock="sim", line_rate=r.choice([0.0, 0.0025, 0.01, 0.04]) if tier == "thorough" else r.choice([0.0, 0.0, 0.01]))
+    plan = dict(hot_rate=hot, fresh=fresh, spec=spec, seed=seed, episodes=eps, clock="sim", line_rate=r.choice([0.0, 0.0025, 0.01, 0.04]) if tier == "thorough" else r.choice([0.0, 0.0, 0.01]))
+    if plan["hot_rate"] > 0 or plan["line_rate"] > 0:
+        # (line tracing is on anyway) the OS may also deschedule the user thread for a while in the middle of a lifecycle call: virtual time
+        # passes, which a simulated-clock record must not show, throttled or not
+        plan["pause_rate"] = r.choice([0.0, 0.002, 0.006])
+    return plan
+
+
+def _free_run(r: random.Random):
+    from simrex import spec as sp
+
+    R = r.choice([20.0, 24.0, 30.0])
+    rs = R / r.choice([1, 2, 3])
+    def dist(per):
+        return r.choice([["det", sp._r6(per * r.choice([0.0, 0.1, 0.3]))], ["mix", [sp._r6(per * 0.1), sp._r6(per * r.choice([0.6, 1.1]))], [0.7, 0.3]]])
+    def mk_node(i, rate):
+        d = dist(1.0 / rate)
+        return dict(name=f"n{i}", rate=rate, dist=d, delay=sp._r6(min(sp.dist_max(d), 1.0 / rate)) if d[0] != "det" else None, sched=r.choice(["F", "P"]), advance=False, jit=True)
+    def mk_conn(dst, src, rates, **kw):
+        per = min(1.0 / rates[dst], 1.0 / rates[src])
+        d = dist(per)
+        c = dict(dst=dst, src=src, blocking=False, skip=False, jitter=r.choice(["L", "L", "B"]), window=r.randint(1, 3), dist=d, delay=sp._r6(min(sp.dist_max(d), per)) if d[0] != "det" else None)
+        c.update(kw)
+        return c
+    rates = [R, rs]
+    nodes = [mk_node(0, R), mk_node(1, rs)]
+    conns = [mk_conn(1, 0, rates)]
+    if r.random() < 0.5:
+        rates.append(rs * r.choice([1, 2]))
+        nodes.append(mk_node(2, rates[2]))
+        conns.append(mk_conn(2, 1, rates, blocking=r.random() < 0.5))
+        conns.append(mk_conn(1, 2, rates, skip=True))
+    spec = dict(nodes=nodes, conns=conns, sup=1, tie=False, allow_source=True, open_loop=True)
+    sp._repair(spec)
+    assert sp.in_S(spec) is None, sp.in_S(spec)
+    n = r.randint(16, 24)
+    ref = dict(eps_id=0, api="gym", nsteps=n, ending="stop", rtf=1, strategy={"name": "rr"}, sseed=1, fair_k=64, stall_p=0.0, stall_max=0.0)
+    eps = [ref]
+    for j in range(3):
+        ep = driver.gen_episode(r, 0, open_loop=True, nsteps=n, endings=("stop",), override_p=0.0, rtf_choices=(20, 50))
+        ep["slow_user"] = [0.0] * (n + 3)
+        for k in r.sample(range(1, 6), 3):
+            ep["slow_user"][k] = r.choice([0.2, 0.4])  # the sender produces rate * rtf * pause outputs meanwhile (80-600)
+        eps.append(ep)
+    return spec, eps
 
 
 def run_plan(plan: dict, replay=None) -> dict:
